@@ -1,7 +1,7 @@
 (* Props/C01.v — quantize() returns a well-formed model or raises. *)
 From VF Require Import Base.Prelude Gen.Enums Gen.Configs Gen.Scopes Model.Recipe Model.Check
-     Model.Graph Gen.InstChecks Model.Insts Model.Perform Model.Plan Model.Pipeline Spec.WF
-     Proofs.ListFacts Proofs.PerformStep Proofs.PerformInv Proofs.InstsSane Proofs.RangeInv.
+     Model.Graph Gen.InstChecks Model.Insts Model.Perform Model.Plan Model.Pipeline Spec.WF Spec.WFb
+     Proofs.ListFacts Proofs.PerformStep Proofs.PerformInv Proofs.InstsSane Proofs.RangeInv Proofs.NameInv.
 
 (* Local heart of C01, for ALL subgraphs, tensors, consumer lists, parameters:
    one insertion (QUANTIZE or DEQUANTIZE op + new tensor + rewiring + graph
@@ -125,6 +125,46 @@ Proof.
   eapply insts_of_params_sane. exact Ei.
 Qed.
 Print Assumptions C01_pipeline_returns_wf_model_or_raises.
+
+(* "tensor names are unique": the retry loop of add_new_activation_tensor
+   always finds a free name (pigeonhole over base, base_1, base_2, ...; the
+   model's fuel, number of tensors + 1, is never exhausted), quantize_tensor
+   renames nothing; so unique names stay unique over whole runs. *)
+Theorem C01_inserted_tensor_name_is_fresh :
+  forall ts root sfx,
+    ~ In (root, fresh_sfx ts root sfx 0 (S (length ts))) (map tname ts).
+Proof. exact fresh_sfx_fresh. Qed.
+Print Assumptions C01_inserted_tensor_name_is_fresh.
+
+(* the hypothesis is decided in Coq on every generated input (correspondence
+   I+T+E evaluates names_uniqueb on the input and on the model's result) *)
+Theorem C01_names_uniqueb_sound : forall g, names_uniqueb g = true -> names_unique g.
+Proof. exact names_uniqueb_sound. Qed.
+Print Assumptions C01_names_uniqueb_sound.
+
+Theorem C01_transform_graph_keeps_tensor_names_unique :
+  forall m tis m',
+    Forall wf_sg (m_subgraphs m) ->
+    (forall ti i, In ti tis -> In i (ti_insts ti) -> sane m (ti_sg ti) i) ->
+    Forall names_unique (m_subgraphs m) ->
+    transform_graph m tis = Ok m' -> Forall names_unique (m_subgraphs m').
+Proof. exact transform_graph_names_unique. Qed.
+Print Assumptions C01_transform_graph_keeps_tensor_names_unique.
+
+Theorem C01_pipeline_keeps_tensor_names_unique :
+  forall mk_cls matches rules scope_id m scopes stats m' plans,
+    Forall wf_sg (m_subgraphs m) -> Forall names_unique (m_subgraphs m) ->
+    pipeline_cls mk_cls matches rules scope_id m scopes stats = Ok (m', plans) ->
+    Forall names_unique (m_subgraphs m').
+Proof.
+  intros mk_cls matches rules scope_id m scopes stats m' plans Hwf HN H. unfold pipeline_cls in H.
+  destruct (plan_checked_cls mk_cls matches rules scope_id m scopes stats) as [r|]; cbn [bind] in H; [|discriminate].
+  match type of H with (tis <- ?x ;; _) = _ => destruct x as [tis|] eqn:Ei end; cbn [bind] in H; [|discriminate].
+  destruct (transform_graph m tis) as [m2|] eqn:Et; cbn [bind] in H; [|discriminate].
+  inversion H; subst. eapply transform_graph_names_unique; [exact Hwf| |exact HN|exact Et].
+  eapply insts_of_params_sane. exact Ei.
+Qed.
+Print Assumptions C01_pipeline_keeps_tensor_names_unique.
 
 (* Non-vacuity: a concrete well-formed two-op graph whose middle tensor is
    both consumed and exported; inserting a DEQUANTIZE for the graph output and
